@@ -15,7 +15,7 @@ From LMBase Require Import Res ListX.
 From LMStripe Require Import StripeModel NetModel GenStripeNet StripeAvx2 StripeSpec
   StripeProofs SpecProofs NetProofs Avx2Proofs HistoryProofs
   GenSeq SeqT SeqTProofs PadModel PadProofs PadHistory PadHistoryProofs
-  GenPli PliT PliTProofs.
+  GenPli PliT PliTProofs FullCheck FullCheckProofs Mode ModeProofs.
 Import ListNotations.
 
 (* ---------- the closed form is the wording of the property ---------- *)
@@ -479,6 +479,22 @@ Theorem C04_stripe_into_overwrites_everything : forall K C (b : backend) (s : li
       if c * seq_rows C (length s) + r <? length s then nth (c * seq_rows C (length s) + r) s (wild K) else wild K.
 Proof. intros K C b s old1 old2 HC. exact (stripe_into_overwrites K C HC b s old1 old2). Qed.
 
+(* seq.rs StripedSequence::sample / EncodedSequence::sample as translated text (GenPli.v): the row
+   count of sample is the model's sample_rows = ceil(len / C) -- exactly the R rows of the property --,
+   new gets len, EncodedSequence::sample takes len draws; the fill order (every row, left to right,
+   the next C draws) is matched as a statement skeleton by the translator and replayed by `sm` ops *)
+Theorem C04_sample_translated : forall len C, 0 < C ->
+  sm_rows len C default_extra_rows = sample_rows C len /\ sm_rows_ok len C default_extra_rows = true /\
+  sample_rows C len = seq_rows C len /\
+  sm_newlen len C default_extra_rows = len /\ sm_take len C default_extra_rows = len.
+Proof.
+  intros len C HC.
+  split; [unfold sm_rows, sample_rows; first [reflexivity | apply (f_equal (fun x => Nat.div x C)); lia]|].
+  split; [unfold sm_rows_ok; repeat (apply andb_true_iff; split); try reflexivity; apply Nat.leb_le; lia|].
+  split; [unfold sample_rows, seq_rows; apply (f_equal (fun x => Nat.div x C)); lia|].
+  split; [unfold sm_newlen|unfold sm_take]; first [reflexivity | lia].
+Qed.
+
 (* ---------- Clone and the From conversions ---------- *)
 
 (* histories that also clone the buffer (derived Clone: the copy is the same logical state;
@@ -500,6 +516,78 @@ Theorem C04_conversions_spec : forall K C s st, 0 < C -> StripedPad K C s st ->
   step3 K C st OViaMatrix = Ok (mkS (mat st) (slen st) 0) /\
   (swrap st = 0 -> step3 K C st OViaMatrix = Ok st /\ seq_after3_1 K C s st OViaMatrix = s).
 Proof. intros K C s st HC. exact (conversions_spec K C HC s st). Qed.
+
+(* ---------- the checker, completed (review of round 3) ---------- *)
+
+(* Index at sampled positions BEYOND the end of the sequence is decided by the extracted checker
+   too: inside the matrix (L <= i < R*C) it is the wildcard, beyond it (R*C <= i) a panic *)
+Theorem C04_check_full_sound : forall K C (s : list nat) (ob : obs),
+  0 < C -> check_C04_full K C s ob = true ->
+  Holds_C04 K C s ob /\
+  forall i r, In (i, r) (o_index ob) ->
+    (length s <= i -> i < seq_rows C (length s) * C -> r = Ok (wild K)) /\
+    (seq_rows C (length s) * C <= i -> exists site, r = Panic site).
+Proof. intros K C s ob HC. exact (check_C04_full_sound K C HC s ob). Qed.
+
+(* after any history the model's own observation passes the completed checker *)
+Theorem C04_model_passes_full : forall K C (ops : list op) (s : list nat) (st : sseq) (idx : list nat),
+  0 < C -> Striped K C s st -> forallb (op_typed C) ops = true ->
+  Forall (fun y => y < K) (last_seq s ops) ->
+  exists st', run K C st ops = Ok st' /\
+              check_C04_full K C (last_seq s ops) (observe K C st' idx) = true.
+Proof.
+  intros K C ops s st idx HC HS Ht Hsym.
+  destruct (run_spec K C HC ops s st HS Ht) as (st' & Hrun & HS' & _).
+  exists st'. split; [exact Hrun|].
+  exact (model_passes_full K C HC _ st' idx Hsym HS').
+Qed.
+
+(* "generic and AVX2 striping agree", decided by extracted code from the two states the harness
+   prints (not by a boolean computed in Rust): accepted only if the two states are EQUAL (and the
+   striped form of s); and the two kernels of the model, run on any two well-formed buffers, are
+   accepted *)
+Theorem C04_check_agree_sound : forall K C (s : list nat) (g a : sseq),
+  0 < C -> check_agree K C s g a = true -> g = a /\ Striped K C s g.
+Proof. intros K C s g a HC. exact (check_agree_sound K C HC s g a). Qed.
+
+Theorem C04_check_agree_complete : forall K (s : list nat) (old1 old2 : sseq),
+  wf_matrix 32 (mat old1) -> wf_matrix 32 (mat old2) ->
+  exists g a, stripe_into K 32 BGeneric s old1 = Ok g /\ stripe_into K 32 BAvx2 s old2 = Ok a /\
+              check_agree K 32 s g a = true.
+Proof. intros K s old1 old2. apply (check_agree_model K 32); [lia|reflexivity]. Qed.
+
+(* a history that begins with Stripe::stripe / to_striped (a fresh matrix): the old buffer does
+   not matter at all, not even its row width *)
+Theorem C04_history_stale_start_stripe : forall K C (b : backend) (s0 : list nat) (ops : list op) (old : sseq),
+  0 < C -> forallb (op_typed C) (OStripe b s0 :: ops) = true ->
+  exists st', run K C old (OStripe b s0 :: ops) = Ok st' /\
+              Striped K C (last_seq s0 ops) st' /\ swrap st' = wrap_after 0 ops.
+Proof. intros K C b s0 ops old HC. exact (history_stale_start_stripe K C HC b s0 ops old). Qed.
+
+(* ---------- the padding mode along a history ---------- *)
+
+(* Which checker decides after each op (Mode.pad_after, extracted and used by the driver): any
+   history over ALL modelled operations -- stripe_into / stripe / configure / configure_wrap,
+   sample, new, clone, From<EncodedSequence>, DenseMatrix::from + new -- never fails, keeps the
+   padded invariant, and keeps the wildcard-padded invariant `Striped` (uniqueness, Index in the
+   padding = wildcard, check_C04_full) whenever the mode is "not padded": i.e. from the last stripe /
+   to_striped / From<EncodedSequence> on, through clones, configure calls and matrix round trips
+   without look-ahead rows *)
+Theorem C04_mode_history : forall K C (ops : list op3) (s : list nat) (st : sseq) (pad : bool), 0 < C ->
+  (pad = false -> Striped K C s st) -> StripedPad K C s st -> forallb (op3_ok C) ops = true ->
+  exists st', run3 K C st ops = Ok st' /\
+    StripedPad K C (seq_after3 K C s st ops) st' /\
+    (pad_after K C pad st ops = false -> Striped K C (seq_after3 K C s st ops) st').
+Proof. intros K C ops s st pad HC. exact (mode_history K C HC ops s st pad). Qed.
+
+(* ... and in that mode the model's own observation passes the completed checker *)
+Theorem C04_mode_model_passes : forall K C (ops : list op3) (s : list nat) (st : sseq) (idx : list nat), 0 < C ->
+  Striped K C s st -> forallb (op3_ok C) ops = true ->
+  Forall (fun y => y < K) (seq_after3 K C s st ops) ->
+  pad_after K C false st ops = false ->
+  exists st', run3 K C st ops = Ok st' /\
+    check_mode K C (pad_after K C false st ops) (seq_after3 K C s st ops) (observe K C st' idx) = true.
+Proof. intros K C ops s st idx HC. exact (mode_model_passes K C HC ops s st idx). Qed.
 
 (* ---------- statement pins ---------- *)
 
@@ -696,4 +784,26 @@ Example ex_via_matrix_with_wrap :
     [0; 1; 2; 2; 3; 0] /\
   forallb (op3_ok 4) [O2 (O1 (OStripeInto BGeneric ex_s)); OClone; O2 (O1 (OConfigureWrap 1)); OViaMatrix] = true /\
   op3_ok 4 (OFromEnc AAvx2 ex_s) = false /\ op3_ok 32 (OFromEnc AAvx2 ex_s) = true.
+Proof. vm_compute. repeat split; reflexivity. Qed.
+
+(* the completed checker rejects a non-wildcard answer in the padding, an answer instead of a panic
+   beyond the matrix, and two kernels that disagree (or agree on a wrong matrix) *)
+Example ex_check_full_rejects :
+  check_C04_full 5 4 ex_s (mkObs ex_st [(5, Ok 1); (6, Ok 4); (7, Ok 4); (8, Panic 0)] (Ok ex_s) (Ok [2; 2; 1; 1; 0]) (Ok [2; 2; 1; 1; 0]) true) = true /\
+  check_C04_full 5 4 ex_s (mkObs ex_st [(6, Ok 1)] (Ok ex_s) (Ok [2; 2; 1; 1; 0]) (Ok [2; 2; 1; 1; 0]) true) = false /\
+  check_C04_full 5 4 ex_s (mkObs ex_st [(8, Ok 4)] (Ok ex_s) (Ok [2; 2; 1; 1; 0]) (Ok [2; 2; 1; 1; 0]) true) = false /\
+  check_C04_full 5 4 ex_s (mkObs ex_st [(7, Panic 0)] (Ok ex_s) (Ok [2; 2; 1; 1; 0]) (Ok [2; 2; 1; 1; 0]) true) = false /\
+  check_agree 5 4 ex_s ex_st ex_st = true /\
+  check_agree 5 4 ex_s ex_st (mkS [[0; 2; 0; 4]; [1; 3; 1; 0]] 6 0) = false /\
+  check_agree 5 4 ex_s ex_pad_st ex_pad_st = false.
+Proof. vm_compute. repeat split; reflexivity. Qed.
+
+(* modes along a history: stripe -> wildcard mode; clone / configure keep it; matrix round trip with a
+   look-ahead row -> padded mode; From<EncodedSequence> -> wildcard mode again *)
+Example ex_modes :
+  pad_after 5 4 false s_default [O2 (O1 (OStripeInto BGeneric ex_s)); OClone; O2 (O1 (OConfigureWrap 1))] = false /\
+  pad_after 5 4 false s_default [O2 (O1 (OStripeInto BGeneric ex_s)); OViaMatrix; OClone] = false /\
+  pad_after 5 4 false s_default [O2 (O1 (OStripeInto BGeneric ex_s)); O2 (O1 (OConfigureWrap 1)); OViaMatrix] = true /\
+  pad_after 5 4 false s_default [O2 (OSample [0; 1; 2; 3; 0; 1; 2; 3] 6); OClone; O2 (O1 (OConfigure 2))] = true /\
+  pad_after 5 32 true s_default [O2 (OSample [0; 1; 2] 2); OFromEnc AGeneric ex_s; OClone] = false.
 Proof. vm_compute. repeat split; reflexivity. Qed.
